@@ -40,12 +40,13 @@ import AdaptaVerif.Lemmas.TopoConsNonOverlap
 namespace AdaptaVerif.Props.C13Cons
 open AdaptaVerif.Model.TopoCons AdaptaVerif.Model.TopoTransfer AdaptaVerif.Check.Topo
 open AdaptaVerif.Lemmas.TopoConsScan (bOof bCof)
-open AdaptaVerif.Lemmas.TopoConsGen (triOf w0 w1 w2 w1' wSg pA pB pC pSg)
-open AdaptaVerif.Lemmas.TopoConsRewrite (SplitKeeps toFirstHalf)
+open AdaptaVerif.Lemmas.TopoConsGen (triOf w0 w1 w2 w1' wSg pA pB pC pSg idLt ctlIni ctlFin)
+open AdaptaVerif.Lemmas.TopoConsRewrite (SplitKeeps toFirstHalf exNode exSt)
+open AdaptaVerif.Lemmas.TopoConsTight (exPos)
 open AdaptaVerif.Lemmas.TopoConsBend (offLine)
 open AdaptaVerif.Model.Tri (TriConstraint minAlpha moveStep)
 open AdaptaVerif.Spec.Tri (Feasible)
-open AdaptaVerif.Lemmas.TopoConsNonOverlap (OpenAtClose Sep)
+open AdaptaVerif.Lemmas.TopoConsNonOverlap (OpenAtClose Sep e0 e1 e2 ePos)
 
 /-! ### the scan -/
 
@@ -107,6 +108,15 @@ theorem scan_openSegs_empty (d : Nat) (tb : Ev → Nat) (nodes : List Node) (seg
     (scan d tb nodes segs).openSegs = [] :=
   AdaptaVerif.Lemmas.TopoConsScan.scan_openSegs_empty d tb nodes segs hids hsegs hpos
 
+-- non-vacuity of `scan_mem_iff_of_not_dupKey`, `scan_openNodes_empty`, `scan_openSegs_empty` (and the state-machine side
+-- of `scan_mem_iff`): in the control scene above (whose `hids`/`hsegs`/`hpos`/`htbO`/`htbC` are shown there) the
+-- duplicate-key flag stays false, the state machine emits the two constraints of the closed form, and both open lists
+-- end empty.  (`scan` sorts with `List.mergeSort`, which `decide` cannot unfold - evaluated by `#guard`.)
+#guard (scan 0 tbId [w0, w1', w2] [wSg]).dupKey = false ∧
+    ((scan 0 tbId [w0, w1', w2] [wSg]).out.map fun x => (x.2.node.id, x.2.pos, x.2.ri, x.2.nodeLeft)) =
+      [(1, 21, 2, false), (1, 34, 3, false)] ∧
+    (scan 0 tbId [w0, w1', w2] [wSg]).openNodes = [] ∧ (scan 0 tbId [w0, w1', w2] [wSg]).openSegs = []
+
 /-- `scanNO` is `scan` with the `cs.push_back` of `NodeClose::process` recorded. -/
 theorem scanNO_fst (d : Nat) (tb : Ev → Nat) (nodes : List Node) (segs : List Seg) :
     (scanNO d tb nodes segs).1 = scan d tb nodes segs :=
@@ -125,6 +135,20 @@ theorem scanNO_mem_iff (d : Nat) (tb : Ev → Nat) (nodes : List Node) (segs : L
     (c : NOC) :
     c ∈ (scanNO d tb nodes segs).2 ↔ c ∈ nonOverlapClosed d (bCof tb) nodes :=
   AdaptaVerif.Lemmas.TopoConsScanNO.scanNO_mem_iff d tb nodes segs hids hsegs hpos htbO htbC hkeys c
+
+-- non-vacuity of `scanNO_mem_iff`: three nodes in a row sharing the scan lines 0 < y < 2 (no segments): all hypotheses
+-- hold and both sides are the two neighbour constraints (e0,e1), (e1,e2)
+example :
+    [e0, e1, e2].Pairwise (fun a b => a.id ≠ b.id) ∧
+    ([] : List Seg).Pairwise (fun a b => ¬ (a.edge = b.edge ∧ a.idx = b.idx)) ∧
+    (∀ n ∈ [e0, e1, e2], n.r.lo (conj 0) < n.r.hi (conj 0)) ∧
+    (∀ m ∈ [e0, e1, e2], ∀ n ∈ [e0, e1, e2], m.id ≠ n.id → tbId (.nodeOpen m) ≠ tbId (.nodeOpen n)) ∧
+    (∀ m ∈ [e0, e1, e2], ∀ n ∈ [e0, e1, e2], m.id ≠ n.id → tbId (.nodeClose m) ≠ tbId (.nodeClose n)) ∧
+    (∀ m ∈ [e0, e1, e2], ∀ n ∈ [e0, e1, e2], m.id ≠ n.id →
+      m.r.lo (conj 0) < n.r.hi (conj 0) → n.r.lo (conj 0) < m.r.hi (conj 0) → m.r.centre 0 ≠ n.r.centre 0) ∧
+    nonOverlapClosed 0 (bCof tbId) [e0, e1, e2] = [mkNOC 0 e0 e1, mkNOC 0 e1 e2] := by
+  decide +kernel
+#guard (scanNO 0 tbId [e0, e1, e2] []).2 = [mkNOC 0 e0 e1, mkNOC 0 e1 e2]
 
 /-! ### what is generated -/
 
@@ -209,6 +233,19 @@ theorem endnode_blind_spot (d : Nat) (bO : Node → Node → Bool) (nodes : List
     ∀ c, (sg, c) ∉ consAtOpen d bO nodes segs n :=
   AdaptaVerif.Lemmas.TopoConsGen.endnode_blind_spot d bO nodes segs n m sg hL hx hm
 
+-- non-vacuity of `endnode_blind_spot` (NodeOpen / left neighbour): the witness scene mirrored in y; the segment is open
+-- at the event and not attached to the node, so the conclusion is not empty for a trivial reason
+example :
+    let m0 : Node := ⟨0, ⟨0, 20, 0, 20⟩⟩
+    let m1 : Node := ⟨1, ⟨22, 35, 2, 15⟩⟩
+    let m2 : Node := ⟨2, ⟨-40, -20, -60, -40⟩⟩
+    let sg : Seg := ⟨0, 0, ⟨m0, 4⟩, ⟨m2, 4⟩⟩
+    leftNb 0 m1 (openNodesAtOpen 0 idLt m1 [m0, m1, m2]) = some m0 ∧
+    sg.inter 0 (m1.r.lo (conj 0)) < m0.r.centre 0 ∧
+    (m0.r.lo (conj 0) < m1.r.lo (conj 0) ∧ m1.r.lo (conj 0) < m0.r.hi (conj 0)) ∧
+    sg ∈ openSegsAtOpen 0 (m1.r.lo (conj 0)) [sg] ∧ sg.connected m1 = false := by
+  decide +kernel
+
 theorem endnode_blind_spot_right (d : Nat) (bO : Node → Node → Bool) (nodes : List Node)
     (segs : List Seg) (n m : Node) (sg : Seg)
     (hR : rightNb d n (openNodesAtOpen d bO n nodes) = some m)
@@ -216,6 +253,19 @@ theorem endnode_blind_spot_right (d : Nat) (bO : Node → Node → Bool) (nodes 
     (hm : m.r.lo (conj d) < n.r.lo (conj d) ∧ n.r.lo (conj d) < m.r.hi (conj d)) :
     ∀ c, (sg, c) ∉ consAtOpen d bO nodes segs n :=
   AdaptaVerif.Lemmas.TopoConsGen.endnode_blind_spot_right d bO nodes segs n m sg hR hx hm
+
+-- non-vacuity of `endnode_blind_spot_right` (NodeOpen / right neighbour): the same scene mirrored in x
+example :
+    let m0 : Node := ⟨0, ⟨-20, 0, 0, 20⟩⟩
+    let m1 : Node := ⟨1, ⟨-35, -22, 2, 15⟩⟩
+    let m2 : Node := ⟨2, ⟨20, 40, -60, -40⟩⟩
+    let sg : Seg := ⟨0, 0, ⟨m0, 4⟩, ⟨m2, 4⟩⟩
+    rightNb 0 m1 (openNodesAtOpen 0 idLt m1 [m0, m1, m2]) = some m0 ∧
+    m0.r.centre 0 < sg.inter 0 (m1.r.lo (conj 0)) ∧
+    (m0.r.lo (conj 0) < m1.r.lo (conj 0) ∧ m1.r.lo (conj 0) < m0.r.hi (conj 0)) ∧
+    sg ∈ openSegsAtOpen 0 (m1.r.lo (conj 0)) [sg] ∧ sg.connected m1 = false ∧
+    consAtOpen 0 idLt [m0, m1, m2] [sg] m1 = [] := by
+  decide +kernel
 
 theorem endnode_blind_spot_close (d : Nat) (bC : Node → Node → Bool) (nodes : List Node)
     (segs : List Seg) (n m : Node) (sg : Seg)
@@ -225,6 +275,14 @@ theorem endnode_blind_spot_close (d : Nat) (bC : Node → Node → Bool) (nodes 
     ∀ c, (sg, c) ∉ consAtClose d bC nodes segs n :=
   AdaptaVerif.Lemmas.TopoConsGen.endnode_blind_spot_close d bC nodes segs n m sg hL hx hm
 
+-- non-vacuity of `endnode_blind_spot_close` (NodeClose / left neighbour): the witness scene itself
+example :
+    leftNb 0 w1 (openNodesAtClose 0 idLt w1 [w0, w1, w2]) = some w0 ∧
+    wSg.inter 0 (w1.r.hi (conj 0)) < w0.r.centre 0 ∧
+    (w0.r.lo (conj 0) < w1.r.hi (conj 0) ∧ w1.r.hi (conj 0) < w0.r.hi (conj 0)) ∧
+    wSg ∈ openSegsAtClose 0 (w1.r.hi (conj 0)) [wSg] ∧ wSg.connected w1 = false := by
+  decide +kernel
+
 theorem endnode_blind_spot_close_right (d : Nat) (bC : Node → Node → Bool) (nodes : List Node)
     (segs : List Seg) (n m : Node) (sg : Seg)
     (hR : rightNb d n (openNodesAtClose d bC n nodes) = some m)
@@ -232,6 +290,19 @@ theorem endnode_blind_spot_close_right (d : Nat) (bC : Node → Node → Bool) (
     (hm : m.r.lo (conj d) < n.r.hi (conj d) ∧ n.r.hi (conj d) < m.r.hi (conj d)) :
     ∀ c, (sg, c) ∉ consAtClose d bC nodes segs n :=
   AdaptaVerif.Lemmas.TopoConsGen.endnode_blind_spot_close_right d bC nodes segs n m sg hR hx hm
+
+-- non-vacuity of `endnode_blind_spot_close_right` (NodeClose / right neighbour): the witness scene mirrored in x
+example :
+    let m0 : Node := ⟨0, ⟨-20, 0, 0, 20⟩⟩
+    let m1 : Node := ⟨1, ⟨-35, -22, 5, 18⟩⟩
+    let m2 : Node := ⟨2, ⟨20, 40, 40, 60⟩⟩
+    let sg : Seg := ⟨0, 0, ⟨m0, 4⟩, ⟨m2, 4⟩⟩
+    rightNb 0 m1 (openNodesAtClose 0 idLt m1 [m0, m1, m2]) = some m0 ∧
+    m0.r.centre 0 < sg.inter 0 (m1.r.hi (conj 0)) ∧
+    (m0.r.lo (conj 0) < m1.r.hi (conj 0) ∧ m1.r.hi (conj 0) < m0.r.hi (conj 0)) ∧
+    sg ∈ openSegsAtClose 0 (m1.r.hi (conj 0)) [sg] ∧ sg.connected m1 = false ∧
+    consAtClose 0 idLt [m0, m1, m2] [sg] m1 = [] := by
+  decide +kernel
 
 /-- Closed witness (the scene of harness case `witness-endnode-visibility`, nodes [0,20]², [22,35]x[5,18], [-40,-20]x[40,60], edge 0→2, XDIM): node 1 and the segment satisfy every hypothesis of `straight_complete` at node 1's closing scan line except that the segment's own start node 0 lies between - and the constructor creates no constraint at all, for every tie order. -/
 theorem endnode_blind_spot_witness (bO bC : Node → Node → Bool) :
@@ -531,6 +602,42 @@ theorem bendSatisfy_preserves_sides {d : Nat} {st st' : EdgeSt} {i : Nat} {u v w
     SplitKeeps (u.pos d) (u.pos (conj d)) (w.pos d) (w.pos (conj d)) (v.pos d) (v.pos (conj d)) c0 :=
   AdaptaVerif.Lemmas.TopoConsRewrite.bendSatisfy_preserves_sides _h _hu _hv _hw h0 h1 hne hvs hvc c0
 
+-- joint non-vacuity of the hypotheses of `straightSatisfy_*` (in particular `straightSatisfy_scs`,
+-- `straightSatisfy_bend_on_segment`, `straightSatisfy_preserves_sides`) and of `slack_is_gap`, `tight_*` below: node 1
+-- touches the only segment centre(node 0) -> centre(node 2) of `exSt` with its bottom right corner; the stored constraint
+-- is the one `createStraight` makes, it is tight (gap 0 = slack 0 at the construction centres `exPos`), the event position
+-- is the node's low side, inside the segment's span; the state is well formed (one constraint list per segment)
+example :
+    let a : EPt := ⟨exNode 0 0 0, 4⟩
+    let b : EPt := ⟨exNode 2 20 20, 4⟩
+    let c : SC := ⟨exNode 1 8 10, 1, 10, true, 9 / 20, -1⟩
+    straightSatisfy 0 exSt 0 0 = some ⟨7, [a, ⟨exNode 1 8 10, 1⟩, b], [[], []]⟩ ∧
+    exSt.pts[0]? = some a ∧ exSt.pts[0 + 1]? = some b ∧ (exSt.scs.getD 0 [])[0]? = some c ∧
+    createStraight 0 ⟨exSt.id, 0, a, b⟩ c.node c.pos = some c ∧
+    gap 0 ⟨exSt.id, 0, a, b⟩ c.node c.pos c.nodeLeft = 0 ∧
+    (c.pos = c.node.r.lo (conj 0) ∨ c.pos = c.node.r.hi (conj 0)) ∧
+    c.node.r.lo (conj 0) < c.node.r.hi (conj 0) ∧
+    (⟨exSt.id, 0, a, b⟩ : Seg).lo 0 ≤ c.pos ∧ c.pos ≤ (⟨exSt.id, 0, a, b⟩ : Seg).hi 0 ∧
+    (triOf ⟨exSt.id, 0, a, b⟩ c).slackAt exPos = 0 ∧
+    exSt.scs.length + 1 = exSt.pts.length := by
+  decide +kernel
+
+-- joint non-vacuity of the hypotheses of `bendSatisfy_*` (in particular `bendSatisfy_scs`, `bendSatisfy_preserves_sides`):
+-- the inverse rewrite - the bend at node 1's bottom right corner (10,10) lies on the leg (1,1) -> (21,21) at t = 9/20;
+-- the merged segment gets node 1's StraightConstraint back
+example :
+    let u : EPt := ⟨exNode 0 0 0, 4⟩
+    let v : EPt := ⟨exNode 1 8 10, 1⟩
+    let w : EPt := ⟨exNode 2 20 20, 4⟩
+    let st : EdgeSt := ⟨7, [u, v, w], [[], []]⟩
+    bendSatisfy 0 st 1 = some ⟨7, [u, w], [[⟨exNode 1 8 10, 1, 10, true, 9 / 20, -1⟩]]⟩ ∧
+    st.pts[1 - 1]? = some u ∧ st.pts[1]? = some v ∧ st.pts[1 + 1]? = some w ∧
+    (0 : Rat) ≤ 9 / 20 ∧ (9 / 20 : Rat) ≤ 1 ∧ u.pos (conj 0) ≠ w.pos (conj 0) ∧
+    v.pos 0 = u.pos 0 + 9 / 20 * (w.pos 0 - u.pos 0) ∧
+    v.pos (conj 0) = u.pos (conj 0) + 9 / 20 * (w.pos (conj 0) - u.pos (conj 0)) ∧
+    st.scs.length + 1 = st.pts.length := by
+  decide +kernel
+
 /-! ### the whole `solve()` step: the satisfied constraint is tight -/
 
 /-- When the move is cut short (minTAlpha < 1) a constraint attaining the minimum - the `minT` that `solve()` then satisfies - has slack exactly 0 at the positions reached. -/
@@ -612,6 +719,28 @@ theorem solve_step_tight_generated_or_extra (d : Nat) (bO bC : Node → Node →
             ((⟨y.2.node.movedTo d x', y.2.ri⟩ : EPt).pos (conj d)) c0) :=
   AdaptaVerif.Lemmas.TopoConsTight.solve_step_tight_generated_or_extra d bO bC nodes segs extra ini fin hpos hini hlt
 
+-- non-vacuity of `solve_step_satisfied_is_tight`, `solve_step_tight_generated_or_extra` (and, through the latter, of
+-- `solve_step_straight_satisfy_preserves_sides`): the control scene with node 2 dragged to x = 100 is feasible at the
+-- initial centres, the move is cut short (minTAlpha = 6/13), all nodes have positive height; with `extra = []` the theorem
+-- then yields a GENERATED constraint that is tight after the move
+example :
+    Feasible ((consClosed 0 idLt idLt [w0, w1', w2] [wSg]).map (fun x => triOf x.1 x.2) ++ []) ctlIni ∧
+    minAlpha ((consClosed 0 idLt idLt [w0, w1', w2] [wSg]).map (fun x => triOf x.1 x.2) ++ [])
+      ctlIni ctlFin = 6 / 13 ∧
+    (∀ n ∈ [w0, w1', w2], n.r.lo (conj 0) < n.r.hi (conj 0)) := by
+  refine ⟨?_, by decide +kernel, by decide +kernel⟩
+  unfold Feasible
+  decide +kernel
+
+example : ∃ y ∈ consClosed 0 idLt idLt [w0, w1', w2] [wSg],
+    (triOf y.1 y.2).slackAt
+      (moveStep ((consClosed 0 idLt idLt [w0, w1', w2] [wSg]).map (fun x => triOf x.1 x.2) ++ []) ctlIni ctlFin) = 0 := by
+  obtain ⟨t, _, _, ht, hex | ⟨y, hy, rfl, _⟩⟩ :=
+    solve_step_tight_generated_or_extra 0 idLt idLt [w0, w1', w2] [wSg] [] ctlIni ctlFin (by decide +kernel)
+      (by unfold Feasible; decide +kernel) (by decide +kernel)
+  · exact absurd hex (List.not_mem_nil)
+  · exact ⟨y, hy, ht⟩
+
 /-! ### the non-overlap constraints of the scan -/
 
 /-- Every separation constraint `NodeClose::createNonOverlapConstraint` creates is between two nodes of the scene, the left one having the smaller centre, one of them still open when the other closes, with gap = half the two lengths + 1e-7. -/
@@ -658,5 +787,20 @@ theorem solve_move_keeps_nonOverlap (d : Nat) (bC : Node → Node → Bool) (nod
     (hfin : ∀ c ∈ nonOverlapClosed d bC nodes, c.holds fin) (h0 : 0 ≤ α) (h1 : α ≤ 1) :
     ∀ c ∈ nonOverlapClosed d bC nodes, c.holds (AdaptaVerif.Model.Tri.posOnLine ini fin α) :=
   AdaptaVerif.Lemmas.TopoConsNonOverlap.solve_move_keeps_nonOverlap d bC nodes ini fin α hini hfin h0 h1
+
+-- non-vacuity of `nonOverlap_sound`, `nonOverlap_sound_overlap`, `solve_move_keeps_nonOverlap` (for `nonOverlap_complete`
+-- see the instantiated example at the end of Lemmas/TopoConsNonOverlap): the row scene has two constraints, and they hold
+-- at two different position vectors
+example :
+    nonOverlapClosed 0 idLt [e0, e1, e2] = [mkNOC 0 e0 e1, mkNOC 0 e1 e2] ∧
+    (∀ n ∈ [e0, e1, e2], n.r.lo (conj 0) < n.r.hi (conj 0)) ∧
+    (∀ c ∈ nonOverlapClosed 0 idLt [e0, e1, e2], c.holds ePos) ∧
+    (∀ c ∈ nonOverlapClosed 0 idLt [e0, e1, e2], c.holds (fun i => 10 * ePos i)) := by
+  have hE : nonOverlapClosed 0 idLt [e0, e1, e2] = [mkNOC 0 e0 e1, mkNOC 0 e1 e2] := by decide +kernel
+  refine ⟨hE, by decide +kernel, ?_, ?_⟩ <;>
+  · intro c hc
+    rw [hE] at hc
+    simp only [List.mem_cons, List.not_mem_nil, or_false] at hc
+    rcases hc with rfl | rfl <;> (unfold NOC.holds; decide +kernel)
 
 end AdaptaVerif.Props.C13Cons
